@@ -126,6 +126,27 @@ def check_kripke(inp):
             f = _check_sub(inp, K, V, nodes, set(R), expL, expS0)
             if f is not None:
                 return f
+        # beyond the constructor: the documented replace_labelling_function() may hand the structure
+        # a dict with keys that are not states (as the constructor's L may); copies must still be
+        # faithful and get_substructure must still ignore non-states in V
+        if inp.get('relabel', True) and nodes:
+            K2 = K.clone()
+            ghost = OUT + '-ghost'
+            newL = dict((s, set(['r', 7]) if i % 2 else set()) for i, s in enumerate(sorted(nodes, key=repr)))
+            newL[ghost] = set(['p'])
+            dropped = sorted(nodes, key=repr)[-1]
+            del newL[dropped]                      # a state without an entry gets the empty set
+            K2.replace_labelling_function(dict((k, set(v)) for k, v in newL.items()))
+            expL2 = dict((s, set(newL.get(s, set()))) for s in nodes)
+            f = _inspect(inp, K2, nodes, set(R), expL2, expS0, 'after replace_labelling_function')
+            if f is None:
+                f = _inspect(inp, K2.clone(), nodes, set(R), expL2, expS0, 'clone after replace_labelling_function')
+            if f is not None:
+                return f
+            for V in [set(nodes) | set([ghost]), set(list(sorted(nodes, key=repr))[:1]) | set([ghost]), set([ghost])]:
+                f = _check_sub(dict(inp, after='replace_labelling_function'), K2, V, nodes, set(R), expL2, expS0)
+                if f is not None:
+                    return f
     except core.HarnessError:
         raise
     except Exception as e:
@@ -203,6 +224,7 @@ CHECKS = {'kripke': check_kripke}
 def replay(ctx, rec):
     inp = dict(rec['input'])
     inp.pop('V_used', None)
+    inp.pop('after', None)
     return check_kripke(inp)
 
 
